@@ -33,6 +33,7 @@ type c05Case struct {
 	Diff       *c05Diff  `json:"diff,omitempty"`
 	Decoy      *c05Decoy `json:"decoy,omitempty"`
 	HonestFail bool      `json:"honest_fail"` // the agreed artifacts violate a rule (DISALLOW of an honest product)
+	EmptyLast  bool      `json:"empty_last"`  // the last step records no products at all (a sign-off step)
 	StepName   string    `json:"step_name"`
 	Repeats    int       `json:"repeats"`
 }
@@ -55,6 +56,7 @@ func c05Gen(t *rapid.T) c05Case {
 			Evil: rapid.SampledFrom([]string{"secret", "missing", "clean"}).Draw(t, "evil")}
 	}
 	c.HonestFail = rapid.IntRange(0, 4).Draw(t, "honestfail") == 0
+	c.EmptyLast = rapid.IntRange(0, 4).Draw(t, "emptylast") == 0
 	return c
 }
 
@@ -110,11 +112,23 @@ func c05Run(c c05Case, r *hx.Rec) error {
 	}
 	w.Links = links
 
+	if c.EmptyLast && len(layCopy.Steps) >= 2 {
+		last := layCopy.Steps[len(layCopy.Steps)-1]
+		for _, i := range stepLinks(w, last.Name) {
+			w.Links[i].Meta.Link.Products = hx.MArtifacts{}
+		}
+		last.ExpProd = [][]string{{"DISALLOW", "*"}}
+		layCopy.Steps[len(layCopy.Steps)-1] = last
+		r.Label("empty-last")
+	}
 	// every step: REQUIRE one honest product, DISALLOW secret, then the generated rules
 	for si := range layCopy.Steps {
 		st := layCopy.Steps[si]
 		idx := stepLinks(w, st.Name)
 		first := w.Links[idx[0]].Meta.Link
+		if len(first.Products) == 0 {
+			continue
+		}
 		req := sortedArtifactKeys(first.Products)[0]
 		st.ExpProd = append([][]string{{"REQUIRE", req}, {"DISALLOW", "secret"}}, st.ExpProd...)
 		if c.HonestFail && si == len(layCopy.Steps)-1 {
@@ -127,29 +141,33 @@ func c05Run(c c05Case, r *hx.Rec) error {
 		idx := stepLinks(w, layCopy.Steps[c.Diff.Step].Name)
 		l := w.Links[idx[c.Diff.Link%len(idx)]].Meta.Link
 		prods := sortedArtifactKeys(l.Products)
-		switch c.Diff.Kind {
+		kind := c.Diff.Kind
+		if len(prods) == 0 {
+			kind = "add-material"
+		}
+		switch kind {
 		case "add-material":
 			l.Materials["extra.file"] = map[string]string{"sha256": "ab"}
-			diffApplied = c.Diff.Kind
+			diffApplied = kind
 		case "drop-product":
 			if len(prods) > 1 {
 				delete(l.Products, prods[len(prods)-1])
-				diffApplied = c.Diff.Kind
+				diffApplied = kind
 			}
 		case "digest":
 			l.Products[prods[0]]["sha256"] = strings.Repeat("0", 64)
-			diffApplied = c.Diff.Kind
+			diffApplied = kind
 		case "alg-name":
 			d := l.Products[prods[0]]["sha256"]
 			l.Products[prods[0]] = map[string]string{"sha512": d}
-			diffApplied = c.Diff.Kind
+			diffApplied = kind
 		case "add-alg":
 			l.Products[prods[0]]["sha512"] = "cd"
-			diffApplied = c.Diff.Kind
+			diffApplied = kind
 		case "rename-path":
 			l.Products[prods[len(prods)-1]+"2"] = l.Products[prods[len(prods)-1]]
 			delete(l.Products, prods[len(prods)-1])
-			diffApplied = c.Diff.Kind
+			diffApplied = kind
 		}
 	}
 	if c.Decoy != nil && c.Decoy.Step < len(layCopy.Steps) {
@@ -161,12 +179,13 @@ func c05Run(c c05Case, r *hx.Rec) error {
 		switch c.Decoy.Evil {
 		case "secret":
 			d.Products["secret"] = map[string]string{"sha256": "ee"}
-		case "missing":
-			delete(d.Products, sortedArtifactKeys(d.Products)[0])
-		case "clean":
-			// without the product that trips the honest links' DISALLOW (HonestFail worlds)
-			delete(d.Products, sortedArtifactKeys(d.Products)[0])
-			st.ExpProd = st.ExpProd[0:] // unchanged
+		case "missing", "clean":
+			// "clean": without the product that trips the honest links' DISALLOW (HonestFail worlds)
+			if len(d.Products) > 0 {
+				delete(d.Products, sortedArtifactKeys(d.Products)[0])
+			} else {
+				d.Products["extra"] = map[string]string{"sha256": "ee"}
+			}
 		}
 		f := hx.WMetaFile{Wrapper: w.Links[idx[0]].Wrapper, Meta: hx.MMeta{Link: &d}}
 		switch c.Decoy.Kind {
